@@ -104,6 +104,7 @@ void harness_reqline(void)
 		VP_WITNESS("request line accepted");
 		if (req.type == EVHTTP_REQ_PROPPATCH) VP_WITNESS("PROPPATCH accepted");
 		if (req.type == 0) VP_WITNESS("accepted with unknown method (501 later)");
+		if (R.wellformed && R.target_has_ws) VP_WITNESS("target containing white space accepted (documented non-conformant leniency)");
 	} else {
 		/* completeness: a strictly valid HTTP/1.x request line whose target the URI parser takes is accepted.
 		 * (the code's minimum length of 14 = strlen("GET / HTTP/1.0") only cuts off extension
